@@ -213,7 +213,7 @@ pub fn check(case: &Case) -> Verdict {
             };
             // the text depends on the value and the specification only
             let h = crate::hist::mix(&[crate::hist::mix_str(amount), *ty as u64, *unit as u64, spec.precision.unwrap_or(99) as u64, spec.width.unwrap_or(99) as u64]);
-            if h % 4 == 0 {
+            if h % 16 == 0 {
                 if let Some(m) = crate::hist::independent(h, &|| (t.display)((a, *unit), spec)) {
                     fail!("{}: {}", note, m);
                 }
